@@ -138,3 +138,8 @@ def check(ctx):
     # ---- R04-h a worker thread is never attached to a scope outside the caller's own shields (shared with C14/R14-c)
     from .c14 import worker_scope
     worker_scope(ctx, "R04-h")
+
+    # ---- R04-i a restarted delivery runs in the name of the cancelled scope it found (origin = that scope): its cancel reason marks the
+    # CancelledError as AnyIO's and its uncancel count is the one the absorbing scope settles (shared with C03/R03-d)
+    from .walkers import restart_walker
+    restart_walker(ctx, "R04-i")
